@@ -49,6 +49,11 @@ def _root_.Gen.SqlOps.SqlBin.text : SqlBin → List Char
 
 def sqlBinOf (name : List Char) : Option SqlBin := (operatorFromName.find? fun p => p.1 == name).map (·.2)
 
+/-- append a translated operand to the text assembled so far; `-` directly followed by an operand that starts with `-`
+would read as the comment marker `--`: the operand is parenthesised (commit 8bc968c; `minusGuard` is extracted) -/
+def appendOperand (acc arg : List Char) : List Char :=
+  if minusGuard && acc.getLast? == some '-' && arg.head? == some '-' then acc ++ ['('] ++ arg ++ [')'] else acc ++ arg
+
 /-- `translate_operator`: fill the template of `name` with translated arguments -/
 def fillTemplate (d : Dialect) (name : List Char) (args : List Piece') : Option Piece' :=
   match lookupOp d name with
@@ -61,7 +66,7 @@ def fillTemplate (d : Dialect) (name : List Char) (args : List Piece') : Option 
       let text := body.foldl (fun acc p =>
         match p with
         | .text s => acc ++ s
-        | .hole i req => acc ++ operand (args.getD i ([], 0)) false (req.getD ps) .Both) []
+        | .hole i req => appendOperand acc (operand (args.getD i ([], 0)) false (req.getD ps) .Both)) []
       match od.coalesce with
       | some dflt => some (['C', 'O', 'A', 'L', 'E', 'S', 'C', 'E', '('] ++ text ++ [',', ' '] ++ dflt ++ [')'], coalescedStrength)
       | none => some (text, ps)
@@ -162,6 +167,7 @@ def sqlLexAux : Nat → List Char → Option (List STok)
   | _, [] => some []
   | f + 1, c :: rest =>
     if c == ' ' then sqlLexAux f rest
+    else if c == '-' && rest.head? == some '-' then some []      -- `--` comments out the rest of the line
     else if c.isDigit then
       let ds := (c :: rest).takeWhile Char.isDigit
       let r := (c :: rest).dropWhile Char.isDigit
